@@ -1,6 +1,7 @@
 package gen
 
 import (
+	"encoding/json"
 	"sort"
 	"strconv"
 	"strings"
@@ -56,7 +57,7 @@ func collectSlots(v any, depth int, out *[]slot) {
 var HostileKeys = []string{"a.a", "x.x", "", "a.b", "default", "example", "x-ext", "$ref", "items", "properties", "0", "é", "a b", "paths", "allOf"}
 
 // MutateKinds lists the structural edits of Mutate.
-var MutateKinds = []string{"delete", "retype", "null", "rename", "transplant", "duplicate", "retarget-ref", "ref-with-sibling", "hostile-name", "string-case", "blank-string", "plant-value", "self-ref-definition"}
+var MutateKinds = []string{"delete", "retype", "null", "rename", "transplant", "duplicate", "retarget-ref", "ref-with-sibling", "hostile-name", "string-case", "blank-string", "plant-value", "self-ref-definition", "respell-duplicate-number"}
 
 // Mutate applies one structural edit to a decoded document (in place) and returns
 // the kind of edit and the depth at which it landed (0 = a top-level member); ok is
@@ -141,7 +142,9 @@ func Mutate(t *rapid.T, doc map[string]any) (kind string, depth int, ok bool) {
 		var typed []slot
 		for _, c := range slots {
 			if m, isObj := c.get().(map[string]any); isObj {
-				if _, has := m["type"]; has {
+				_, hasType := m["type"]
+				_, hasIn := m["in"] // parameters, whatever else they declare
+				if hasType || hasIn {
 					typed = append(typed, c)
 				}
 			}
@@ -152,7 +155,22 @@ func Mutate(t *rapid.T, doc map[string]any) (kind string, depth int, ok bool) {
 		c := typed[rapid.IntRange(0, len(typed)-1).Draw(t, "typedslot")]
 		m := c.get().(map[string]any)
 		var v any
-		switch rapid.IntRange(0, 4).Draw(t, "plantedkind") {
+		switch rapid.IntRange(0, 6).Draw(t, "plantedkind") {
+		case 5:
+			// an enumeration (and uniqueItems) mixing a scalar with a container
+			m["enum"] = []any{Scalar(t), []any{Scalar(t)}, map[string]any{Name(t): Scalar(t)}}
+			if rapid.Bool().Draw(t, "plantunique") {
+				m["uniqueItems"] = true
+			}
+			v = []any{"s", []any{"t"}, map[string]any{"k": nil}}
+		case 6:
+			// a value on an object that declares nothing else of a simple schema
+			if rapid.Bool().Draw(t, "droptype") {
+				delete(m, "type")
+				delete(m, "format")
+				delete(m, "items")
+			}
+			v = rapid.SampledFrom([]any{map[string]any{"k": Number(1)}, []any{Number(1), "a"}}).Draw(t, "plantedcontainer")
 		case 0:
 			v = []any{nil}
 		case 1:
@@ -164,6 +182,40 @@ func Mutate(t *rapid.T, doc map[string]any) (kind string, depth int, ok bool) {
 		}
 		m[rapid.SampledFrom([]string{"default", "default", "example"}).Draw(t, "plantedkey")] = v
 		return kind, c.deep + 1, true
+	case "respell-duplicate-number":
+		// append to an array of numbers one of its elements under another spelling (1 -> 1.0, 10 -> 1e+01):
+		// equal JSON values, so e.g. an enum (which must hold unique items) now has a duplicate
+		var numArrays []slot
+		for _, c := range slots {
+			if a, isArr := c.get().([]any); isArr {
+				for _, e := range a {
+					if _, isNum := e.(json.Number); isNum {
+						numArrays = append(numArrays, c)
+						break
+					}
+				}
+			}
+		}
+		if len(numArrays) == 0 {
+			return kind, 0, false
+		}
+		c := numArrays[rapid.IntRange(0, len(numArrays)-1).Draw(t, "numarray")]
+		a := c.get().([]any)
+		for _, e := range a {
+			if n, isNum := e.(json.Number); isNum {
+				var el json.Number
+				if !strings.ContainsAny(string(n), ".eE") {
+					el = json.Number(string(n) + ".0")
+				} else if f, err := n.Float64(); err == nil {
+					el = json.Number(strconv.FormatFloat(f, 'e', -1, 64))
+				} else {
+					continue
+				}
+				c.set(append(append([]any{}, a...), el))
+				return kind, c.deep, true
+			}
+		}
+		return kind, c.deep, false
 	case "self-ref-definition":
 		// a definition that is a $ref to itself (or to a definition that refers back), keeping its content as an allOf sibling
 		defs, _ := doc["definitions"].(map[string]any)
@@ -221,7 +273,16 @@ func Mutate(t *rapid.T, doc map[string]any) (kind string, depth int, ok bool) {
 		}
 		c := arrSlots[rapid.IntRange(0, len(arrSlots)-1).Draw(t, "arrslot")]
 		a := c.get().([]any)
-		c.set(append(append([]any{}, a...), Clone(a[rapid.IntRange(0, len(a)-1).Draw(t, "dupelem")])))
+		el := Clone(a[rapid.IntRange(0, len(a)-1).Draw(t, "dupelem")])
+		if n, isNum := el.(json.Number); isNum && rapid.Bool().Draw(t, "respell") {
+			// the same number under another spelling (1 and 1.0 are equal JSON values)
+			if !strings.ContainsAny(string(n), ".eE") {
+				el = json.Number(string(n) + ".0")
+			} else if f, err := n.Float64(); err == nil {
+				el = json.Number(strconv.FormatFloat(f, 'e', -1, 64))
+			}
+		}
+		c.set(append(append([]any{}, a...), el))
 		return kind, c.deep, true
 	case "retarget-ref", "ref-with-sibling":
 		var refSlots []slot
